@@ -121,6 +121,9 @@ def fold(spec, fn, args):
     if fn == 'COUNTBLANK':
         if scalars:
             raise Skip('scalar under COUNTBLANK')
+        if any(a['t'] == 'col' for a in args):
+            # the number of blank cells of a whole column depends on where the sheet "ends"; the statement is silent
+            raise Skip('COUNTBLANK over a whole column')
         return kinds.count('blank') + kinds.count('emptytext')
     if fn in ('AND', 'OR'):
         if any(k not in ('num', 'bool') for k in kinds):
